@@ -1,6 +1,7 @@
 """C15 — DyadCarrier behaves exactly like the dense matrix it represents.
 
-(H) correspondence: random programs (<= 12 operations) over a store of <= 4 carriers and a pool of <= 3 dense
+(H) correspondence: read / mutate / read histories on one object (every read operation before and after every in-place
+operation, see stress_programs) and random programs (<= 12 operations) over a store of <= 4 carriers and a pool of <= 3 dense
 operands are run on the real pymoto.DyadCarrier; after every step the result, the state of the bound / mutated
 carrier (stored vectors with their dtypes, shape, dtype, todense()) are written into coq/gen/C15/cases_*.v and the
 Gallina model (Model/Dyad.v) is evaluated on the same program inside Coq (exact: Gaussian-integer data).
@@ -853,10 +854,14 @@ def gen_step(g, store, pool, malformed):
     return {'op': 'un', 'k': r.choice(['copy', 'neg', 'T']), 'dst': dst, 'src': a}
 
 
-def gen_contract(g, a, R_, C_, malformed):
+CONTRACT_PATTERNS = ['plain', 'mat', 'sparse', 'rows', 'cols', 'rowscols', 'bmat', 'brows', 'bmatrows', 'ball', 'bcols', 'bb']
+
+
+def gen_contract(g, a, R_, C_, malformed, pat=None):
     """one of the documented calling patterns of contract (plain / matrix / sparse / sliced / batched)"""
     r = g.rng
-    pat = r.choice(['plain', 'mat', 'mat', 'sparse', 'rows', 'cols', 'rowscols', 'bmat', 'brows', 'bmatrows', 'ball', 'bcols', 'bb'])
+    if pat is None:
+        pat = r.choice(['plain', 'mat', 'mat', 'sparse', 'rows', 'cols', 'rowscols', 'bmat', 'brows', 'bmatrows', 'ball', 'bcols', 'bb'])
     st = {'op': 'contract', 'a': a, 'mat': None, 'rows': None, 'cols': None}
 
     def index(n, shape):
@@ -921,10 +926,187 @@ def pick_operand(g, pool, shape):
     return x
 
 
+# ============================================================================ read / mutate / read histories
+# Deterministic structure (runs on every seed, data and orders from the seeded generator): ONE carrier object per
+# program is read with EVERY read operation, modified in place, read again with the SAME operations and operands, ...
+# so that anything the object keeps between calls (a cache of stacked vectors, of a dense image, of a dtype, of a
+# shape) and does not refresh after an in-place operation shows up as a difference with the model and the dense program.
+NUL = {'slice': [None, None, None]}
+STRESS_TYPES = ['real', 'complex', 'mixed_uc', 'mixed_vc', 'mixed_dyads', 'single', 'empty', 'empty_unknown']
+STRESS_SHAPES = [(3, 3), (3, 4), (4, 3), (4, 4), (2, 3), (4, 2), (2, 2), (3, 2)]
+T, O1, O2, SCR, CPY = 0, 1, 2, 3, 4          # slots: target, real operand, complex operand, scratch, copy of the target
+
+
+def carrier_new(g, dst, R, C, kind):
+    """the `new` step of a carrier of the given kind (all stored vectors non-zero, so none is dropped)"""
+    if kind == 'empty':
+        return {'op': 'new', 'dst': dst, 'u': None, 'v': None, 'shape': [R, C], 'omit_v': True, 'omit_u': True}
+    if kind == 'empty_unknown':
+        return {'op': 'new', 'dst': dst, 'u': None, 'v': None, 'shape': None, 'omit_v': True, 'omit_u': True}
+
+    def vec(n, cplx):
+        while True:
+            x = g.arr((n,), cplx=cplx, pzero=0.0)
+            if np.any(x != 0):
+                return A(x)
+    ul, vl = [], []
+    for q in range(1 if kind == 'single' else 3):
+        cu, cv = {'real': (False, False), 'single': (False, False), 'complex': (True, True), 'mixed_uc': (True, False),
+                  'mixed_vc': (False, True), 'mixed_dyads': (q == 1, q == 1)}[kind]
+        ul.append(vec(R, cu))
+        vl.append(vec(C, cv))
+    return {'op': 'new', 'dst': dst, 'u': {'list': ul}, 'v': {'list': vl}, 'shape': None}
+
+
+def read_block(g, a, R, C, full=True):
+    """every read operation of the class on slot a (shape R x C known, R, C >= 2); carrier results go to the scratch slot.
+    The block is generated once per program and repeated verbatim (same operands) after every in-place operation."""
+    r = g.rng
+    S = [{'op': 'todense', 'a': a, 'via': 'todense'}, {'op': 'todense', 'a': a, 'via': 'toarray'},
+         {'op': 'diag', 'a': a, 'k': 0, 'explicit_k': False}, {'op': 'diag', 'a': a, 'k': 1, 'explicit_k': True},
+         {'op': 'diag', 'a': a, 'k': -1, 'explicit_k': True}]
+    for pat in CONTRACT_PATTERNS:
+        S.append(gen_contract(g, a, R, C, False, pat=pat))
+
+    def sp(fmt, cplx):
+        x = g.arr((R, C), cplx=cplx, pzero=0.0)
+        mask = np.array([r.random() < 0.6 for _ in range(x.size)]).reshape(x.shape)
+        mask.flat[r.randrange(x.size)] = True
+        return {'arr': A(x * mask), 'sparse': fmt}
+    S.append({'op': 'contract_multi', 'a': a, 'mats': [sp('coo', False), sp('csr', True), None, {'arr': A(g.arr((R, C)))},
+                                                       sp('csc', False)]})
+    S.append({'op': 'contract_multi', 'a': a, 'mats': [sp('coo', r.random() < 0.3)]})
+    for kk, shape in (('dot', (C,)), ('matmul', (C,)), ('rmatmul', (R,))) + ((('dot', (C, 2)), ('matmul', (C, 3)),
+                                                                              ('rmatmul', (2, R))) if full else ()):
+        S.append({'op': 'bin', 'k': kk, 'dst': SCR, 'a': a, 'b': {'arr': A(g.arr(shape, pzero=0.0))}})
+    i0, j0 = r.randrange(R), r.randrange(C)
+    ia, ja = [r.randrange(-R, R) for _ in range(3)], [r.randrange(-C, C) for _ in range(3)]
+    gets = [({'int': i0}, {'int': j0}), ({'int': -1}, NUL), (NUL, {'int': j0}), ({'int': i0}, {'slice': [None, None, -1]}),
+            ({'arr': ia}, {'int': j0}), ({'int': i0}, {'arr': ja}), ({'arr': ia}, {'arr': ja}), (NUL, NUL)]
+    if full:
+        gets += [({'slice': [1, None, None]}, {'slice': [None, -1, None]}), ({'arr': ia}, NUL), ({'slice': [None, None, 2]}, {'arr': ja})]
+    S += [{'op': 'get', 'dst': SCR, 'a': a, 'i': i, 'j': j} for i, j in gets]
+    S += [{'op': 'un', 'k': k, 'dst': SCR, 'src': a} for k in (('copy', 'pos', 'neg', 'T', 'transpose', 'conj', 'real', 'imag')
+                                                                if full else ('copy', 'T', 'conj'))]
+    if full:
+        S += [{'op': 'mul', 'dst': SCR, 'a': a, 's': {'re': 2, 'im': None}},
+              {'op': 'rmul', 'dst': SCR, 'a': a, 's': {'re': 1, 'im': 2}},
+              {'op': 'mul', 'dst': SCR, 'a': a, 's': {'re': -1, 'im': None, 'int': True}},
+              {'op': 'rmul', 'dst': SCR, 'a': a, 's': {'re': 3, 'im': None, 'np': True}},
+              {'op': 'bin', 'k': 'add', 'dst': SCR, 'a': a, 'b': {'slot': O1}},
+              {'op': 'bin', 'k': 'sub', 'dst': SCR, 'a': a, 'b': {'slot': O2}},
+              {'op': 'bin', 'k': 'add', 'dst': SCR, 'a': a, 'b': {'arr': A(g.arr((R, C)))}},
+              {'op': 'bin', 'k': 'radd', 'dst': SCR, 'a': a, 'b': {'arr': A(g.arr((C,)))}},
+              {'op': 'bin', 'k': 'sub', 'dst': SCR, 'a': a, 'b': {'arr': A(g.arr((1, 1)))}},
+              {'op': 'bin', 'k': 'rsub', 'dst': SCR, 'a': a, 'b': {'arr': A(g.arr((R, 1)))}},
+              {'op': 'bin', 'k': 'add', 'dst': SCR, 'a': a, 'b': {'scal': {'re': 0, 'im': None}}},
+              {'op': 'bin', 'k': 'rsub', 'dst': SCR, 'a': a, 'b': {'scal': {'re': 0, 'im': None, 'int': True}}}]
+    return S
+
+
+def unknown_read_block(a):
+    """the reads that make sense before the shape of a carrier is known"""
+    return ([{'op': 'todense', 'a': a, 'via': 'todense'}, {'op': 'diag', 'a': a, 'k': 0, 'explicit_k': False},
+             {'op': 'get', 'dst': SCR, 'a': a, 'i': NUL, 'j': NUL}]
+            + [{'op': 'un', 'k': k, 'dst': SCR, 'src': a} for k in ('copy', 'neg', 'T', 'conj', 'real', 'imag')]
+            + [{'op': 'mul', 'dst': SCR, 'a': a, 's': {'re': 2, 'im': None}},
+               {'op': 'bin', 'k': 'add', 'dst': SCR, 'a': a, 'b': {'scal': {'re': 0, 'im': None}}}])
+
+
+def mutations(g, R, C):
+    """(zeroing, adding): every in-place operation of the class on the target slot, plus re-binding the name to a new
+    object (`d *= 2` and friends are not in-place for this class: the name is bound to the product)"""
+    r = g.rng
+    z0 = {'re': 0, 'im': None}
+
+    def zset(i, j, **kw):
+        return {'op': 'set', 'tgt': T, 'i': i, 'j': j, 'v': dict(z0, **kw)}
+
+    def vec(n, cplx=None):
+        while True:
+            x = g.arr((n,), cplx=cplx, pzero=0.0)
+            if np.any(x != 0):
+                return A(x)
+    ia = sorted({r.randrange(-R, R) for _ in range(2)})
+    ja = sorted({r.randrange(-C, C) for _ in range(2)})
+    Z = [('rows:int', zset({'int': r.randrange(R)}, NUL)), ('rows:negative int', zset({'int': -1}, NUL, int=True)),
+         ('rows:slice', zset({'slice': [1, R, None]}, NUL)), ('rows:stepped slice', zset({'slice': [None, None, 2]}, NUL)),
+         ('rows:index array', zset({'arr': ia}, NUL)), ('rows:empty index array', zset({'arr': []}, NUL)),
+         ('cols:int', zset(NUL, {'int': r.randrange(C)}, int=True)), ('cols:slice', zset(NUL, {'slice': [None, C - 1, None]})),
+         ('cols:negative slice', zset(NUL, {'slice': [-1, None, None]})), ('cols:index array', zset(NUL, {'arr': ja})),
+         ('everything', zset(NUL, NUL))]
+    Aop = [('+=real', {'op': 'iadd', 'tgt': T, 'src': O1}), ('-=real', {'op': 'isub', 'tgt': T, 'src': O1}),
+           ('+=complex', {'op': 'iadd', 'tgt': T, 'src': O2}), ('-=complex', {'op': 'isub', 'tgt': T, 'src': O2}),
+           ('add_dyad:vectors', {'op': 'add_dyad', 'tgt': T, 'u': {'one': vec(R)}, 'v': {'one': vec(C)}}),
+           ('add_dyad:list with factor', {'op': 'add_dyad', 'tgt': T, 'u': {'list': [vec(R), vec(R)]},
+                                          'v': {'list': [vec(C), vec(C)]}, 'fac': r.choice([-1, 2, -2])}),
+           ('add_dyad:zero vector (nothing stored)', {'op': 'add_dyad', 'tgt': T, 'u': {'list': [A(np.zeros(R))]},
+                                                      'v': {'list': [vec(C)]}}),
+           ('add_dyad:block', {'op': 'add_dyad', 'tgt': T, 'u': {'one': A(g.arr((2, R), pzero=0.0))}, 'v': {'one': vec(C, True)}}),
+           ('rebind:d = d * 2', {'op': 'mul', 'dst': T, 'a': T, 's': {'re': 2, 'im': None}}),
+           ('rebind:d = -d', {'op': 'un', 'k': 'neg', 'dst': T, 'src': T}),
+           ('rebind:d = d.copy()', {'op': 'un', 'k': 'copy', 'dst': T, 'src': T}),
+           ('rebind:d = d.conj()', {'op': 'un', 'k': 'conj', 'dst': T, 'src': T})]
+    if R == C:
+        Aop.append(('add_dyad:symmetric', {'op': 'add_dyad', 'tgt': T, 'u': {'list': [vec(R)]}, 'v': None, 'omit_v': True}))
+    return Z, Aop
+
+
+def stress_programs(ctx, g, rep=0):
+    """[(label, steps)]: per carrier type one chain  READS m1 READS m2 READS ...  that alternates zeroing and adding
+    operations (each order drawn from the seeded generator) with the full read block in between, and three short
+    programs with two consecutive operations of any kind and the compact read block"""
+    r = g.rng
+    progs = []
+    off = r.randrange(len(STRESS_SHAPES))
+    for ti, kind in enumerate(STRESS_TYPES):
+        R, C = STRESS_SHAPES[(ti + off) % len(STRESS_SHAPES)]
+        head = [carrier_new(g, T, R, C, kind), carrier_new(g, O1, R, C, 'real'), carrier_new(g, O2, R, C, 'complex')]
+        pre = []
+        if kind == 'empty_unknown':
+            pre = unknown_read_block(T) + [{'op': r.choice(['iadd', 'isub']), 'tgt': T, 'src': r.choice([O1, O2])}] \
+                + unknown_read_block(T)[:1]
+        Z, Aop = mutations(g, R, C)
+        # ---- the chain
+        reads = read_block(g, T, R, C, full=True)
+        r.shuffle(Z), r.shuffle(Aop)
+        order = []
+        while Z or Aop:
+            if Z:
+                order.append(Z.pop())
+            if Aop:
+                order.append(Aop.pop())
+        half = (len(order) + 1) // 2
+        for part, sub in enumerate((order[:half], order[half:])):          # two programs (size of the case files)
+            copy_at = set(r.sample(range(len(sub)), 2))
+            creads = None
+            steps = head + pre + list(reads)
+            for q, (name, m) in enumerate(sub):
+                ctx.count('history: in-place operation ' + name.split(':')[0])
+                ctx.count('history: carrier type ' + kind)
+                if q in copy_at:      # a copy taken before the operation must not follow it (nor share anything cached)
+                    steps.append({'op': 'un', 'k': 'copy', 'dst': CPY, 'src': T})
+                    creads = creads or read_block(g, CPY, R, C, full=False)
+                    steps += creads
+                steps.append(m)
+                steps += reads
+                if q in copy_at:
+                    steps += creads
+            progs.append((f'history:{rep}:{kind}:{R}x{C}:chain{part}', steps))
+        # ---- two consecutive operations of any kind
+        Z, Aop = mutations(g, R, C)
+        allm = Z + Aop
+        reads = read_block(g, T, R, C, full=False)
+        for q in range(3):
+            (n1, m1), (n2, m2) = r.sample(allm, 2)
+            progs.append((f'history:{rep}:{kind}:{R}x{C}:{n1} then {n2}', head + pre + reads + [m1] + reads + [m2] + reads))
+    return progs
+
+
 class ProgramRun:
     """runs a program on the implementation, records observations, evaluates the dense oracle"""
 
-    def __init__(self, ctx, pym, steps=None, gen=None, depth=0, p_malformed=0.1, label=''):
+    def __init__(self, ctx, pym, steps=None, gen=None, depth=0, p_malformed=0.1, label='', observe_operand=False):
         self.ctx, self.pym = ctx, pym
         self.steps, self.obs, self.kinds = [], [], []
         self.label = label
@@ -948,17 +1130,21 @@ class ProgramRun:
             res, slot = exec_step(st, store, pym)
             # ---- observation for Coq
             state = dense = 'None'
-            if slot is not None and slot < len(store) and store[slot] is not None:
-                state = f'(Some {carrier_lit(store[slot])})'
+            oslot = slot
+            if oslot is None and observe_operand and st.get('a') is not None and not malformed:
+                oslot = st['a']       # a pure read: the state of the carrier that was read is observed after the call
+            if oslot is not None and oslot < len(store) and store[oslot] is not None:
+                state = f'(Some {carrier_lit(store[oslot])})'
                 try:
-                    dense = f'(Some ({mlit(store[slot].todense())}))'
+                    if slot is not None:      # (after a pure read only the stored data are observed; todense is in the block)
+                        dense = f'(Some ({mlit(store[oslot].todense())}))'
                 except Exception as e:   # noqa
                     self.bad('DyadCarrier.todense', 'dense refinement', 'todense() of a result raised', t,
                              expected='a matrix', got=f'{type(e).__name__}: {e}'[:300])
                     self.broken = True
             isbatch = st['op'] == 'contract' and not isinstance(res, Exception) and np.ndim(res) >= 1
             rl = out_lit(res, isdyad, isbatch) if st['op'] not in INPLACE or isinstance(res, Exception) else '(Ok ONone)'
-            self.obs.append(f'mkobs {op_lit(st)} {rl} {slot if slot is not None else 0} {state} {dense}')
+            self.obs.append(f'mkobs {op_lit(st)} {rl} {oslot if oslot is not None else 0} {state} {dense}')
             kind = st['op'] + (':' + st['k'] if 'k' in st and isinstance(st['k'], str) else '')
             self.kinds.append(kind)
             ctx.count('op:' + kind)
@@ -990,6 +1176,17 @@ class ProgramRun:
             if exp != got:
                 self.bad('DyadCarrier.shape/size/n_dyads', 'shape, size and n_dyads describe the stored data', st['op'], t,
                          expected=list(exp), got=list(got))
+        for k, D in enumerate(store):        # shape / size / n_dyads / iscomplex of EVERY live carrier follow its stored data
+            if D is None:
+                continue
+            try:
+                got = (tuple(D.shape), D.size, D.n_dyads, bool(D.iscomplex()))
+            except Exception as e:   # noqa
+                got = f'{type(e).__name__}: {e}'[:200]
+            exp = ((D.ulen, D.vlen), 0 if min(D.ulen, D.vlen) < 0 else D.ulen * D.vlen, len(D.u), D.dtype.kind == 'c')
+            if got != exp or len(D.u) != len(D.v):
+                self.bad('DyadCarrier.shape/size/n_dyads', 'shape, size, n_dyads and iscomplex describe the stored data',
+                         'after ' + st['op'], t, expected=list(exp), got=got if isinstance(got, str) else list(got))
         for k, (D, snap) in enumerate(zip(objs_before, before)):
             if D is None or k == tgt:
                 continue
@@ -1060,7 +1257,10 @@ class ProgramRun:
                          got=dict(value=got.tolist(), complex=bool(np.iscomplexobj(got))))
 
     def case(self, t=None):
-        return dict(label=self.label, failing_step=t, program=self.steps)
+        steps = self.steps
+        if t is not None and self.label.startswith('history'):
+            steps = steps[:t + 1]            # the replay of a long history stops at the failing step
+        return dict(label=self.label, failing_step=t, program=steps)
 
     def bad(self, site, pred, cls, t, expected=None, got=None):
         self.ctx.violation('impl-violates', site, pred, cls, self.case(t), expected=_js(expected), got=_js(got))
@@ -1081,7 +1281,18 @@ def run(ctx):
                 'steps are valid and ~10% malformed (wrong shapes, out-of-range indices, nonzero assignments: error class '
                 'compared); one case = one program, compared step by step (result, stored vectors and dtypes of the '
                 'bound/mutated carrier, shape, dtype, todense); non-trivial = at least 3 steps of which one acts on a '
-                'carrier with >= 1 dyad; distinct by the full program text')
+                'carrier with >= 1 dyad; distinct by the full program text. Plus, on every seed, read / mutate / read histories on ONE '
+                'object: per carrier type (real, complex, complex u / real v, real u / complex v, real and complex dyads, one dyad, '
+                'no dyads with known shape, no dyads with unknown shape) two chains READS m1 READS m2 ... where READS is the '
+                'same block of every read operation with the same operands (todense/toarray, diagonal k=0,1,-1, contract in all 12 '
+                'calling patterns, contract_multi with coo/csr/csc/None/dense entries, dot/@ from both sides with vectors and matrices, '
+                '11 index forms, copy/+/-/T/transpose/conj/real/imag, scalar products, + - with carriers, dense arrays and 0) and '
+                'm1, m2, ... run through every in-place operation (zeroing rows/columns by int, negative int, slice, stepped slice, '
+                'index array, empty index array, everything; += and -= of real and complex carriers; add_dyad with vectors, lists '
+                'with factor, blocks, zero vectors, symmetric form) and re-bindings (d = d * 2, -d, d.copy(), d.conj()), alternating '
+                'zeroing and adding in a seeded order; copies taken before an operation are read after it; 3 short programs per '
+                'type with two consecutive operations; after every pure read the stored vectors, dtypes, shape and iscomplex of the '
+                'carrier that was read are compared with the model as well')
     ctx.assumptions += [
         'excluded from generation (documented): A += A on the same object (does not terminate), element-wise multiplication '
         'by arrays, min()/max() (documented approximations), add_dyad with a complex fac (documented float), '
@@ -1097,12 +1308,13 @@ def run(ctx):
         return
     vlib.check_props(ctx)
 
-    runs = []
+    runs, stress = [], []
     if getattr(ctx, 'replay', None):
         # ---- replay of a single recorded program (exactly the recorded steps, on the current tree)
         with open(ctx.replay if os.path.isabs(ctx.replay) else os.path.join(vlib.ROOT, ctx.replay)) as f:
             rp = json.load(f)
-        runs = [ProgramRun(ctx, pym, steps=rp['case']['program'], label=rp['case'].get('label', 'replay'))]
+        runs = [ProgramRun(ctx, pym, steps=rp['case']['program'], label=rp['case'].get('label', 'replay'),
+                           observe_operand=str(rp['case'].get('label', '')).startswith('history'))]
     else:
         # ---- corpus first
         for path in sorted(glob.glob(os.path.join(vlib.ROOT, 'corpus', 'C15', '*.json'))):
@@ -1116,6 +1328,11 @@ def run(ctx):
         for k in range(nprog):
             depth = ctx.rng.randint(3, 12)
             runs.append(ProgramRun(ctx, pym, gen=g, depth=depth, p_malformed=0.1, label=f'random:{k}'))
+        # ---- read / mutate / read histories on one object (every seed; thorough: three independent draws)
+        for rep in range(1 if ctx.quick() else 3):
+            for label, steps in stress_programs(ctx, g, rep):
+                stress.append(ProgramRun(ctx, pym, steps=copy.deepcopy(steps), label=label, observe_operand=True))
+                ctx.count('history programs')
     checks, labels = [], []
     for pr in runs:
         text = pr.coq_check()
@@ -1125,11 +1342,29 @@ def run(ctx):
         checks.append(text)
         labels.append(pr)
     failing, err = vlib.run_cases(ctx, 'dyad', HEADER, checks, chunk=30)
+    if stress:
+        schecks = []
+        for pr in stress:
+            text = pr.coq_check()
+            ctx.case(text, True, sample=dict(label=pr.label, steps=len(pr.kinds)))
+            ctx.count('history program steps', len(pr.steps))
+            schecks.append(text)
+        sfail, serr = vlib.run_cases(ctx, 'history', HEADER, schecks, chunk=1)
+        failing += [len(checks) + k for k in sfail]
+        labels += stress
+        err = '\n'.join(x for x in (err, serr) if x)
     ctx.obligation('correspondence:case files evaluated', 'correspondence', not err, err)
     if err:
         ctx.violation('correspondence', 'DyadCarrier', 'case files compile', 'harness', dict(error=err[-3000:]), theorem='cases_dyad')
+    nhist = 0
     for idx in failing[:20]:
         pr = labels[idx]
+        if pr.label.startswith('history'):      # (long programs: the per-step diagnosis is made for the first three only)
+            nhist += 1
+            if nhist > 3:
+                ctx.violation('correspondence', 'DyadCarrier', 'model == implementation', 'program', dict(label=pr.label),
+                              note='Coq model (Model/Dyad.v) and implementation differ on this program; ' + pr.label)
+                continue
         # which step differs, and what the model computes there (small second Coq run, only for failing cases)
         obs = '[' + ';\n    '.join(pr.obs) + ']'
         vals, _ = vlib.eval_coq(ctx, f'fail_{idx}', HEADER, [f'check_trace [] {obs}'])
